@@ -21,6 +21,15 @@ func c08Gen(seed uint64, run int, tier string) *Case {
 	}
 	maxData := effMsize(c) - IOHDRSZ
 	nconn := int(c.Cfg["nconn"])
+	if run%10 == 9 {
+		// a read or write on an authentication fid parked inside AuthRead / AuthWrite
+		c.Stratum = "auth-fid-blocked"
+		c.Cfg["authblock"] = 1
+		c.Cfg["nconn"] = 2
+		c.Cfg["holdwrite"] = int64(r.Intn(2))
+		c.Cfg["sameseg"] = int64(r.Intn(2))
+		return c
+	}
 	c.Stratum = "distinct-tags"
 	groups := run%2 == 1
 	if groups {
@@ -91,7 +100,112 @@ func groupBlocked(w *SrvWork, q *wReq) bool {
 	return false
 }
 
+// c08Auth: one request on an authentication fid is parked inside the implementation's AuthRead / AuthWrite;
+// requests with other tags -- on the same afid, on other fids, on another connection -- must all be answered.
+func c08Auth(x *Ctx) {
+	c := x.C
+	ms := uint32(1024)
+	fs := NewScriptFS(x)
+	fs.PlanFor = func(inv *Inv) *Plan { return &Plan{NWqid: -1, NData: -1, QType: qDir} }
+	holdOp := "authread"
+	if c.cfg("holdwrite") != 0 {
+		holdOp = "authwrite"
+	}
+	first := true
+	fs.AuthHold = func(inv *Inv) bool {
+		if inv.Op == holdOp && inv.Conn == 0 && first {
+			first = false
+			return true
+		}
+		return false
+	}
+	sys := NewSrvSys(x, fs.OpsValue(true, false), fs, ms, true, int(c.cfg("maxpend")), int(c.cfg("debug")))
+	for i := 0; i < 2; i++ {
+		sys.AddConn(0, int(c.cfg("seg")))
+	}
+	var parked *Sent
+	var others []*Sent
+	setup := false
+	rt.Go(rt.SiteSpawn, func() {
+		rt.SetName("auth-client")
+		for ci := 0; ci < 2; ci++ {
+			p := sys.Conns[ci].Peer
+			if r := p.Call(&Msg{Type: Tversion, Tag: NOTAG, Msize: ms, Version: "9P2000.u"}); r == nil || r.M == nil || r.M.Type != Rversion {
+				return
+			}
+			if r := p.Call(&Msg{Type: Tauth, Tag: 1, Afid: 5, Uname: "u0", Aname: "tree", Nuname: 0}); r == nil || r.M == nil || r.M.Type != Rauth {
+				x.Violate("setup", "Tauth answered %v", r)
+				return
+			}
+			if r := p.Call(&Msg{Type: Tattach, Tag: 2, Fid: 0, Afid: 5, Uname: "u0", Aname: "tree", Nuname: 0}); r == nil || r.M == nil || r.M.Type != Rattach {
+				x.Violate("setup", "Tattach answered %v", r)
+				return
+			}
+		}
+		setup = true
+		p0, p1 := sys.Conns[0].Peer, sys.Conns[1].Peer
+		pm := &Msg{Type: Tread, Tag: 10, Fid: 5, Offset: 0, Count: 16}
+		if holdOp == "authwrite" {
+			pm = &Msg{Type: Twrite, Tag: 10, Fid: 5, Offset: 0, Count: 8, Data: []byte("abcdefgh")}
+		}
+		parked = p0.Write(pm)[0]
+		rt.YieldUntil(rt.SiteActor, func() bool { return len(fs.HeldInvs()) > 0 || parked.Reply != nil || p0.EOF })
+		ms0 := []*Msg{
+			{Type: Twrite, Tag: 11, Fid: 5, Offset: 8, Count: 4, Data: []byte("wxyz")},
+			{Type: Tread, Tag: 12, Fid: 5, Offset: 16, Count: 8},
+			{Type: Tstat, Tag: 13, Fid: 0},
+			{Type: Tattach, Tag: 14, Fid: 1, Afid: 5, Uname: "u0", Aname: "tree", Nuname: 0},
+			{Type: Twalk, Tag: 15, Fid: 0, Newfid: 2, Wname: []string{"a"}},
+		}
+		if c.cfg("sameseg") != 0 {
+			others = append(others, p0.Write(ms0...)...)
+		} else {
+			for _, m := range ms0 {
+				others = append(others, p0.Write(m)[0])
+			}
+		}
+		others = append(others, p1.Write(&Msg{Type: Tstat, Tag: 20, Fid: 0}, &Msg{Type: Tread, Tag: 21, Fid: 5, Offset: 0, Count: 8})...)
+	})
+	if !x.Run() {
+		return
+	}
+	if !setup {
+		if len(x.Res.Viol) == 0 {
+			x.Violate("setup", "the authentication set-up did not complete")
+		}
+		return
+	}
+	if len(fs.HeldInvs()) == 1 {
+		x.Probe("quiescence-with-requests-parked")
+		for _, s := range others {
+			if s.Reply == nil {
+				x.Violate("h1-delayed", "%s has no reply at quiescence while only %s (another tag) is parked inside the implementation's %s", s.M, parked.M, holdOp)
+			}
+		}
+	} else if parked == nil || parked.Reply == nil {
+		x.Violate("h1-delayed", "the request that was to be parked in %s never reached the implementation", holdOp)
+	}
+	for _, h := range fs.HeldInvs() {
+		h.Released = true
+	}
+	if !x.Run() {
+		return
+	}
+	if parked != nil && parked.Reply == nil {
+		x.Violate("h1-delayed", "%s, released by the implementation, has no reply", parked.M)
+	}
+	for _, s := range others {
+		if s.Reply == nil && len(x.Res.Viol) == 0 {
+			x.Violate("h1-delayed", "%s has no reply at the end", s.M)
+		}
+	}
+}
+
 func c08Exec(x *Ctx) {
+	if x.C.cfg("authblock") != 0 {
+		c08Auth(x)
+		return
+	}
 	w := NewSrvWork(x, false)
 	phase := 0
 	check := func() {
